@@ -13,7 +13,8 @@ TRUSTED = BASE_TRUSTED + [
 ]
 NAMES9 = "400 warm rounds of task_group / parallel_for with simultaneous throwers"
 NAMES = ["task_group", "parallel_for", "parallel_reduce", "parallel_for_each", "parallel_invoke", "parallel_pipeline", "flow graph function_node", "task_arena::execute", "parallel_for nested in task_group", NAMES9,
-         "parallel_for (4 partitioners) / parallel_reduce where the k-th Range splitting constructor or Body copy/split constructor throws (k = 1..6)"]
+         "parallel_for (4 partitioners) / parallel_reduce where the k-th Range splitting constructor or Body copy/split constructor throws (k = 1..6)",
+         "a body throws after a nested library call that completed normally (72 combinations of outer construct x nested call; BADVALUE = combinations in which the waiting call did not get the exception)"]
 
 
 def run(ctx):
@@ -54,6 +55,10 @@ def run(ctx):
         runs.append([[8, 16, 12][r % 3], ctx.seed * 100 + 7000 + r, 12, 9, [6, 2, 4][r % 3]])
     for r in range(ctx.scale(4, 40)):
         runs.append([[2, 4, 8, 16][r % 4], ctx.seed * 100 + 9000 + r, [64, 16, 200, 5][r % 4], 10, 0])        # the k-th Range split / Body copy constructor throws
+    for r in range(ctx.scale(3, 20)):
+        runs.append([[2, 4, 8][r % 3], ctx.seed * 100 + 11000 + r, 4, 11, 0])      # a body throws after a nested library call that completed
+    ctx.rules.append("exc-mt scenario 11: a body (task_group::run_and_wait functor, parallel_for iteration, task_group::run functor) makes a nested library call that completes normally - execute() on the arena it is "
+                     "already in, a flow graph run to completion, a nested parallel_for, an isolated region, a nested task_group, execute() with a nested loop - and throws afterwards: the waiting call gets that exception")
     ctx.rules.append("exc-mt (oracle only): nine constructs, 1-16 threads, 0/1/2/5 throwing bodies among 4-400: exactly one exception reaches the caller iff a body threw, it is one that was thrown, "
                      "no body is running at that moment and none starts afterwards, functor copies and exception objects are destroyed exactly once (throwers rendezvous so that several catch blocks race), the group/graph/arena is reusable; an exception escaping on a worker would terminate the process")
     bad = 0
